@@ -1,6 +1,7 @@
 """C16 -- no lexical rule backtracks exponentially (level: proof)."""
 from .. import rx
 from ..fold import NotConst, Rx
+from ..astutil import src, is_name
 from ..tables import get_tables
 import ast
 import re
@@ -71,6 +72,9 @@ def run(ctx):
             ctx.note(f'R16.3 {loc}: {pat!r} not analysable ({e})')
             continue
         ctx.ob('R16.3', f'other:{pat}', loc, f'{how} {pat!r} has no eps-cycle/EDA', not f, '; '.join(map(repr, f)))
+    from .. import rules_lexer as RL
+    ctx.rule('R16.4', 'the compiled rule table is exactly the analysed table: only clear()/set_SQL_REGEX write self._SQL_REGEX', floor=2)
+    RL.check_regex_table_ownership(ctx, 'R16.4')
     ctx.info['automata'] = {'rules': len(T.lex), 'max_states': max((s.get('states', 0) for s in stats), default=0),
                             'total_product_nodes': sum(s.get('product_nodes', 0) for s in stats)}
 
@@ -89,7 +93,9 @@ def collect_other_regexes(ctx):
                 try:
                     pat = folder.eval(n.args[0], mod)
                 except NotConst:
-                    continue
+                    pat = template_pattern(ctx, mod, n.args[0], n)
+                    if pat is None:
+                        continue
                 if isinstance(pat, bytes):
                     pat = pat.decode('latin-1')
                 if isinstance(pat, str):
@@ -133,3 +139,60 @@ def collect_other_regexes(ctx):
             seen.add((o[1], o[2]))
             uniq.append(o)
     return uniq
+
+
+def template_pattern(ctx, mod, e, at):
+    """A pattern assembled at run time from constant fragments: unknown (escaped) words are instantiated by the
+    literal `w`, so the fragment structure (separators, repeats) is what gets analysed."""
+    repo, folder = ctx.repo, ctx.folder
+    cls = None
+    for c in repo.classes.values():
+        if c.mod is mod and any(x is at for x in ast.walk(c.node)):
+            cls = c
+
+    def t(x, depth=0):
+        if depth > 6:
+            return None
+        v = folder.try_eval(x, mod, None, cls)
+        if isinstance(v, (str, bytes)):
+            return v.decode('latin-1') if isinstance(v, bytes) else v
+        if isinstance(x, ast.BinOp) and isinstance(x.op, ast.Add):
+            a, b = t(x.left, depth + 1), t(x.right, depth + 1)
+            return None if a is None or b is None else a + b
+        if isinstance(x, ast.Call) and src(x.func) == 're.escape':
+            return 'w'
+        if isinstance(x, ast.Call) and isinstance(x.func, ast.Attribute) and x.func.attr == 'join' and len(x.args) == 1:
+            sep = t(x.func.value, depth + 1)
+            if sep is None:
+                return None
+            inner = x.args[0]
+            item = None
+            if isinstance(inner, ast.Call) and is_name(inner.func, 'map') and inner.args and src(inner.args[0]) == 're.escape':
+                item = 'w'
+            elif isinstance(inner, (ast.GeneratorExp, ast.ListComp)):
+                item = t(inner.elt, depth + 1)
+            elif isinstance(inner, (ast.Tuple, ast.List)):
+                parts = [t(y, depth + 1) for y in inner.elts]
+                return None if any(p_ is None for p_ in parts) else sep.join(parts)
+            if item is None:
+                return None
+            return item + sep + item + sep + item
+        if isinstance(x, ast.JoinedStr):
+            out = ''
+            for v_ in x.values:
+                if isinstance(v_, ast.Constant):
+                    out += v_.value
+                else:
+                    p_ = t(v_.value, depth + 1)
+                    out += p_ if p_ is not None else 'w'
+            return out
+        if isinstance(x, ast.Name):
+            # a local assembled from fragments
+            f = repo.enclosing_func(mod, x)
+            if f is not None:
+                from ..astutil import local_defs
+                ds = [d for d in local_defs(f.node).get(x.id, []) if isinstance(d, ast.AST)]
+                if len(ds) == 1:
+                    return t(ds[0], depth + 1)
+        return None
+    return t(e)
